@@ -83,6 +83,7 @@ func TestVerifC05(t *testing.T) {
 			for _, same := range []bool{true, false} {
 				emit(vhgCloseVsRename(wga, dir, same))
 			}
+			emit(vhgRenameVsDisconnect(wga, dir))
 		}
 	}
 
